@@ -654,6 +654,13 @@ class GhostPointerDict:
                 I.e.prove(nm, False)
             self.log.append(('update', None, d))
             return None
+        if name == 'setdefault' and len(a) == 2:
+            # present: the list already there is returned and the default is dropped; absent: the default is stored
+            key = a[0]
+            if I.e.branch(self.present(key.code), 'key already has pointers'):
+                return self.sym_getitem(I, key)
+            self.log.append(('new', key, a[1]))
+            return a[1]
         raise Unsupported(f'pointers.{name}')
 
 
